@@ -503,6 +503,38 @@ def bi_itertools_zip_longest(e, st, args, kw, node):
 bi_zip_longest = bi_itertools_zip_longest
 
 
+def bi_numpy_argpartition(e, st, args, kw, node):
+    """np.argpartition(a, kth): ASSUMED a permutation p of 0..n-1 with a[p[i]] <= a[p[kth]] <= a[p[j]] for i < kth < j; requires 0 <= kth < n"""
+    st, a = _materialize(e, st, args[0])
+    kth = e.num(args[1])
+    site = e.site(st, 'call')
+    e.assumptions.add('numpy.argpartition(a, kth): a permutation p of the indices with a[p[i]] <= a[p[kth]] <= a[p[j]] for i < kth < j; requires 0 <= kth < len(a)')
+    e.check(st, z3.And(0 <= kth, kth < a.n), f"safety[{site}]::argpartition::kth_in_range", 'safety')
+    n = a.n
+    P = e.fresh_list(INT, 'argpart', n=n)
+    inv = z3.Function(fresh_name('apinv'), z3.IntSort(), z3.IntSort())
+    i, j = z3.Int(fresh_name('api')), z3.Int(fresh_name('apj'))
+    p = lambda x: z3.Select(P.arrs[0], x)
+    val = lambda x: e.num(a.at(x))
+    st.assume(z3.ForAll([i], z3.Implies(z3.And(0 <= i, i < n), z3.And(0 <= p(i), p(i) < n, inv(p(i)) == i)), patterns=[p(i)]),
+              z3.ForAll([j], z3.Implies(z3.And(0 <= j, j < n), z3.And(0 <= inv(j), inv(j) < n, p(inv(j)) == j)), patterns=[inv(j)]),
+              z3.ForAll([i], z3.Implies(z3.And(0 <= i, i < kth), val(p(i)) <= val(p(kth))), patterns=[p(i)]),
+              z3.ForAll([j], z3.Implies(z3.And(kth < j, j < n), val(p(kth)) <= val(p(j))), patterns=[p(j)]))
+    st.notes['last_argpartition'] = dict(P=P, inv=inv, kth=kth, a=a)
+    return st, st.new_list(P)
+
+
+def bi_numpy_arange(e, st, args, kw, node):
+    """np.arange(n): 0, 1, ..., n-1"""
+    if len(args) != 1:
+        raise Unsupported("numpy.arange with start / step")
+    n = e.num(args[0])
+    r = e.fresh_list(INT, 'arange', n=z3.If(n > 0, n, 0))
+    k = z3.Int(fresh_name('ark'))
+    st.assume(z3.ForAll([k], z3.Implies(z3.And(0 <= k, k < r.n), z3.Select(r.arrs[0], k) == k), patterns=[z3.Select(r.arrs[0], k)]))
+    return st, st.new_list(r)
+
+
 def bi_numpy_array(e, st, args, kw, node):
     """np.array(list of numbers): ASSUMED to hold the same elements in the same order (indexing, len and iteration as for the list)"""
     st, l = _materialize(e, st, args[0])
